@@ -36,7 +36,7 @@ ASSUMPTIONS = ['child removal only asserted for waiting children wholly in '
 MIN = {'c30.remove_commands': 200, 'c30.target_checks': 80,
        'c30.child_checks': 80, 'c30.bystander_checks': 500,
        'c30.history_row_checks': 200, 'c30.natural_atoms_unset_expected': 30}
-NCASES = {'quick': 240, 'thorough': 3000}
+NCASES = {'quick': 800, 'thorough': 10000}
 MONS = ['c30', 'c26']
 
 
